@@ -611,6 +611,8 @@ def index(base, key):
         its = {x for x in value_atoms(a[2][0]) if x[0] == 'iter'}
         if src is not None and src[0] == 'app' and src[1] in ('range', 'arange') and len(src[2]) == 1 and len(its) == 1:
             return subst_value(a[2][0], {next(iter(its)): key})
+        if not its and _scalar_index(key):
+            return a[2][0]          # [body for _ in seq][k] with a body that does not mention the position: body
         # [body(seq[i]) for .. in seq][k] = body(seq[k]): the body reads the sequence only at the comprehension's position
         if src is not None and len(its) == 1 and _scalar_index(key):
             it = next(iter(its))
